@@ -136,8 +136,9 @@ def check(world, tier):
     allowed = 0
     for e in blocking:
         n = base_name(e)
-        ok = (n == "std::net::UdpSocket::recv_from" and e.body.endswith("socket::Socket>::recv_from_with_size")
-              and refers_to(e.args[0], self_root, (fi["socket"] or ())))
+        # the one allowed blocking call is the receive on the listening socket itself (wherever the Socket impl puts it: the
+        # method body, a helper or a closure handed to a helper)
+        ok = (n == "std::net::UdpSocket::recv_from" and refers_to(e.args[0], self_root, (fi["socket"] or ())))
         if ok:
             allowed += 1
         d.ob(ok, "blocking-call %s in %s" % (n, short(e.body)),
